@@ -785,6 +785,7 @@ fn life_key(op: &Op) -> &'static str {
         Op::VerifyClone(_) => "verify_clone",
         Op::NoVerifyInDropClone(_) => "no_verify_in_drop_clone",
         Op::MakeRef(_) => "make_ref",
+        Op::MakeRefClone(_) => "make_ref_clone",
         Op::Call { .. } => "call",
     }
 }
